@@ -546,3 +546,254 @@ pub fn c06_prop(model: &Model, ix: &Index, ex: &Exec, tape: &[u32], st: &mut Sta
     st.sample(|| json!({ "stream": esc(&stream), "faults": faults.iter().map(|f| f.map(|(k, p, n)| format!("{:?} at unit {}/{}", k, p + 1, n))).collect::<Vec<_>>() }));
     Ok(())
 }
+
+// -------------------------------------------------------------------------------------------------
+// C01
+// -------------------------------------------------------------------------------------------------
+
+use vcore::spec::{expand, parse_cmd, DNode, STD_DECLS};
+
+fn all_decl_cmds(model: &Model) -> Vec<String> {
+    let mut v: Vec<String> = model.spec.decls.iter().map(|d| d.cmd.clone()).collect();
+    // the standard commands are probed whether or not they were requested
+    v.extend(STD_DECLS.iter().map(|s| s.to_string()));
+    v
+}
+
+fn vocabulary(model: &Model) -> Vec<String> {
+    let mut v: Vec<String> = Vec::new();
+    for cmd in all_decl_cmds(model) {
+        for n in parse_cmd(&cmd).0 {
+            for f in [n.long(), n.short()] {
+                if !v.contains(&f) {
+                    v.push(f);
+                }
+            }
+        }
+    }
+    v
+}
+
+/// A syntactically valid program header: either one common-command mnemonic (`*` + mnemonic) or a
+/// compound header of plain mnemonics (letter, then letters, digits, underscores).
+pub fn valid_header(mnems: &[String]) -> bool {
+    let plain = |m: &str| {
+        let mut ch = m.chars();
+        matches!(ch.next(), Some(c) if c.is_ascii_alphabetic()) && ch.all(|c| c.is_ascii_alphanumeric() || c == '_')
+    };
+    match mnems {
+        [] => false,
+        [one] => plain(one.strip_prefix('*').unwrap_or(one)),
+        many => many.iter().all(|m| plain(m)),
+    }
+}
+
+/// Systematic list of header candidates for one declaration set: every declared spelling, and near
+/// misses built from every node of every declaration. Each is judged by the dictionary.
+pub fn c01_candidates(model: &Model) -> Vec<(Header, &'static str)> {
+    let mut out: Vec<(Header, &'static str)> = Vec::new();
+    let mut push = |mnems: Vec<String>, query: bool, class: &'static str| {
+        if mnems.is_empty() || mnems.iter().any(|m| m.is_empty()) {
+            return;
+        }
+        // a candidate must be a syntactically valid header (mnemonic = letter, then letters/digits/_)
+        if valid_header(&mnems) {
+            out.push((
+                Header {
+                    absolute: false,
+                    mnems,
+                    query,
+                },
+                class,
+            ));
+        }
+    };
+    // (a) every declared spelling
+    for ((path, query), _) in &model.dict {
+        push(path.clone(), *query, "declared spelling");
+    }
+    let vocab = vocabulary(model);
+    for cmd in all_decl_cmds(model) {
+        let (nodes, query): (Vec<DNode>, bool) = parse_cmd(&cmd);
+        if nodes.is_empty() {
+            continue;
+        }
+        // standard commands in every spelling, requested or not
+        if STD_DECLS.contains(&cmd.as_str()) {
+            for p in expand(&nodes) {
+                push(p, query, "standard command spelling");
+            }
+        }
+        // two base spellings with all nodes present
+        for base_short in [false, true] {
+            let base: Vec<String> = nodes.iter().map(|n| if base_short { n.short() } else { n.long() }).collect();
+            push(base.clone(), !query, "query mark toggled");
+            let mut extra = base.clone();
+            extra.push(vocab[(base.len() * 7 + cmd.len()) % vocab.len()].clone());
+            push(extra, query, "extra trailing level");
+            for (i, n) in nodes.iter().enumerate() {
+                let (long, short) = (n.long(), n.short());
+                for k in 1..long.len() {
+                    let abbr = long[..k].to_string();
+                    if abbr != short && abbr != long {
+                        let mut m = base.clone();
+                        m[i] = abbr;
+                        push(m, query, "abbreviation that is neither short nor long form");
+                    }
+                }
+                if short.len() > 1 {
+                    let mut m = base.clone();
+                    m[i] = short[..short.len() - 1].to_string();
+                    push(m, query, "shorter than the short form");
+                }
+                let mut m = base.clone();
+                m[i] = format!("{}X", long);
+                push(m, query, "long form plus a letter");
+                let mut m = base.clone();
+                m[i] = format!("{}X", short);
+                push(m, query, "short form plus a letter");
+                for (k, v) in vocab.iter().enumerate() {
+                    if (k + i) % 3 == 0 && *v != long && *v != short {
+                        let mut m = base.clone();
+                        m[i] = v.clone();
+                        push(m, query, "another node's mnemonic at this level");
+                    }
+                }
+                if !n.optional && nodes.len() > 1 {
+                    let mut m = base.clone();
+                    m.remove(i);
+                    push(m, query, "non-optional level dropped");
+                }
+                if !long.starts_with('*') {
+                    let mut m = base.clone();
+                    m.insert(i, base[i].clone());
+                    push(m, query, "level duplicated");
+                }
+                if i + 1 < nodes.len() {
+                    let mut m = base.clone();
+                    m.swap(i, i + 1);
+                    push(m, query, "two levels swapped");
+                }
+            }
+        }
+    }
+    out
+}
+
+/// Runs one header alone and compares with the dictionary's verdict.
+pub fn c01_check_header(
+    model: &Model, ex: &Exec, header: &Header, salt: u64, st: &mut Stats, class: &str,
+) -> Result<(), String> {
+    // deterministic choices for case and arguments
+    let tape: Vec<u32> = (0..48).map(|k| (vcore::runner::hash_of(&(salt, k, &header.mnems)) >> 16) as u32).collect();
+    let mut t = Tape::new(&tape);
+    let mut h = header.clone();
+    if salt % 3 != 0 {
+        for m in h.mnems.iter_mut() {
+            *m = gen::spell(&mut t, &m.to_ascii_uppercase(), true);
+        }
+    }
+    if salt % 5 == 1 {
+        h.absolute = !h.is_common();
+    }
+    let res = model.resolve(&[], &h);
+    let args = match res.target {
+        Some(Target::User(i)) => gen::gen_args(&mut t, &model.spec.decls[i].params, &Default::default()),
+        _ => vec![],
+    };
+    let msg = Message::new(vec![Unit::new(h.clone(), args)]);
+    let stream = msg.rendered();
+    let env = Env::new(model, ex.qcap);
+    let pred = gen::predict(model, std::slice::from_ref(&msg), None, &env);
+    let out = (ex.run_rec)(&env, &[], &stream);
+    gen::match_log(
+        &pred,
+        &out.log,
+        &MatchCfg {
+            responses_in_log: true,
+            output: None,
+            qcap: ex.qcap,
+        },
+    )
+    .map_err(|e| {
+        format!(
+            "header '{}' ({}; the declarations {} it): {} [log: {}]",
+            esc(&stream),
+            class,
+            if res.target.is_some() { "define" } else { "do not define" },
+            e,
+            show_log(&out.log)
+        )
+    })?;
+    let invoked = out.log.iter().filter(|e| matches!(e, Ev::Handler { .. })).count();
+    if invoked > 1 {
+        return Err(format!("header '{}' invoked {} handlers", esc(&stream), invoked));
+    }
+    match res.target {
+        Some(_) => st.class(&format!("{}: selects a handler", class)),
+        None => st.class(&format!("{}: undefined", class)),
+    }
+    Ok(())
+}
+
+/// Random spellings and multi-mutations of one declaration (proptest tape).
+pub fn c01_random_prop(model: &Model, ex: &Exec, tape: &[u32], st: &mut Stats) -> Result<(), String> {
+    let mut t = Tape::new(tape);
+    let cmds = all_decl_cmds(model);
+    let cmd = &cmds[t.below(cmds.len())];
+    let (nodes, mut query) = parse_cmd(cmd);
+    let vocab = vocabulary(model);
+    let mut mnems: Vec<String> = Vec::new();
+    for n in &nodes {
+        match t.weighted(&[3, 3, if n.optional { 2 } else { 0 }]) {
+            0 => mnems.push(n.long()),
+            1 => mnems.push(n.short()),
+            _ => {}
+        }
+    }
+    let muts = t.weighted(&[3, 3, 1]);
+    let mut class = "random spelling";
+    for _ in 0..muts {
+        class = "random multi-mutation";
+        if mnems.is_empty() {
+            break;
+        }
+        let i = t.below(mnems.len());
+        match t.below(8) {
+            0 => {
+                let k = t.range(1, mnems[i].len());
+                let cut: String = mnems[i].chars().take(k).collect();
+                mnems[i] = cut;
+            }
+            1 => mnems[i].push((b'A' + t.below(26) as u8) as char),
+            2 => mnems[i] = vocab[t.below(vocab.len())].clone(),
+            3 => {
+                mnems.remove(i);
+            }
+            4 => {
+                let m = mnems[i].clone();
+                mnems.insert(i, m);
+            }
+            5 => {
+                let j = t.below(mnems.len());
+                mnems.swap(i, j);
+            }
+            6 => mnems.push(vocab[t.below(vocab.len())].clone()),
+            _ => query = !query,
+        }
+    }
+    if !valid_header(&mnems) {
+        return Ok(());
+    }
+    let h = Header {
+        absolute: false,
+        mnems,
+        query,
+    };
+    let salt = t.u64();
+    c01_check_header(model, ex, &h, salt, st, class)?;
+    if class == "random multi-mutation" || h.mnems.iter().any(|m| !nodes.iter().any(|n| n.long() == *m)) {
+        st.nontrivial(&(&model.spec.name, &h, salt % 15));
+    }
+    Ok(())
+}
